@@ -575,6 +575,29 @@ func genC17(o *Out, rng *rand.Rand, tier string) {
 			o.Emit(map[string]any{"op": "SetGet", "acc": acc, "val": val, "raw": B(p.Options[opt.Code.Code()]), "res": callAcc(a, q)}, "set-get-wire", append(key, 1), true)
 		}
 	}
+	// a number of seconds set as a Duration value and read as raw bytes: the 32-bit field holds lease times (unsigned) and,
+	// for the time offset option, offsets either side of UTC (RFC 2132 3.4: two's complement) - every value of either range
+	// has one encoding
+	setraw := func(code dhcpv4.OptionCode, secs int64) {
+		opt := dhcpv4.Option{Code: code, Value: dhcpv4.Duration(time.Duration(secs) * time.Second)}
+		p, _ := dhcpv4.New(dhcpv4.WithOption(opt))
+		abs := secs
+		if secs < 0 {
+			abs = -secs
+		}
+		rec := map[string]any{"op": "SetRaw", "kind": "seconds", "neg": secs < 0, "abs": u32b(uint32(abs)), "raw": B(p.Options[code.Code()]), "wire": []int{}}
+		if q, err := dhcpv4.FromBytes(p.ToBytes()); err == nil {
+			rec["wire"] = B(q.Options[code.Code()])
+		}
+		o.Emit(rec, "set-raw-seconds", append([]byte{code.Code()}, []byte(fmt.Sprint(secs))...), true)
+	}
+	for _, secs := range []int64{0, 1, 3600, 43200, -1, -3600, -18000, -43200, -1 << 31, 1<<31 - 1, 1 << 31, 1<<32 - 1, -int64(rng.Intn(1 << 30)), int64(rng.Intn(1 << 30))} {
+		setraw(dhcpv4.OptionTimeOffset, secs)
+		if secs >= 0 {
+			setraw(dhcpv4.OptionIPAddressLeaseTime, secs)
+			setraw(dhcpv4.OptionRenewTimeValue, secs)
+		}
+	}
 	// set -> get through the modifiers that set typed options; one modifier value serves several packets (a client
 	// passes the same modifiers to its DISCOVER and to its REQUEST): every packet reads back what was set
 	modget := func(acc string, mod dhcpv4.Modifier, val any, code uint8) {
